@@ -555,9 +555,11 @@ Definition row_add (a b : dstats) : dstats :=
   mkD (d_variants a + d_variants b) (d_phased a + d_phased b) (d_unphased a + d_unphased b)
       (d_singletons a + d_singletons b) (d_blocks a + d_blocks b)
       (if d_blocks a =? 0 then d_vmin b else if d_blocks b =? 0 then d_vmin a else Z.min (d_vmin a) (d_vmin b))
-      (Z.max (d_vmax a) (d_vmax b)) (d_vsum a + d_vsum b)
+      (if d_blocks a =? 0 then d_vmax b else if d_blocks b =? 0 then d_vmax a else Z.max (d_vmax a) (d_vmax b))
+      (d_vsum a + d_vsum b)
       (if d_blocks a =? 0 then d_bmin b else if d_blocks b =? 0 then d_bmin a else Z.min (d_bmin a) (d_bmin b))
-      (Z.max (d_bmax a) (d_bmax b)) (d_bsum a + d_bsum b)
+      (if d_blocks a =? 0 then d_bmax b else if d_blocks b =? 0 then d_bmax a else Z.max (d_bmax a) (d_bmax b))
+      (d_bsum a + d_bsum b)
       (d_het a + d_het b) (d_hetsnv a + d_hetsnv b) (d_phsnv a + d_phsnv b) None.
 Definition row_zero := mkD 0 0 0 0 0 0 0 0 0 0 0 0 0 0 None.
 Definition row_sum (rows : list dstats) : dstats := fold_left row_add rows row_zero.
